@@ -70,6 +70,7 @@ PROPS = {
         "lean": ["PasfmtModel.Props.C06"],
         "streams": [
             {"stream": "fmt", "families": "relayout", "quick": 2500, "thorough": 40000, "binding": ["pre", "out", "*"], "args": {"oracles": "c06"}},
+            {"stream": "fmt", "name": "pairs", "families": "pairs", "quick": 3000, "thorough": 60000, "binding": ["pre", "*"], "args": {}},
         ],
         "oracle_prefixes": ["c06", "glue"],
         "abnormal_binding": False,
@@ -154,7 +155,7 @@ PROPS = {
         "level": "proof",
         "lean": ["PasfmtModel.Props.C08"],
         "streams": [
-            {"stream": "fmt", "families": ALL_FAMILIES, "quick": 3000, "thorough": 40000,
+            {"stream": "fmt", "families": ALL_FAMILIES + ",pairs", "quick": 3500, "thorough": 40000,
              "binding": ["pre", "out", "*"], "args": {"oracles": "c08"}},
         ],
         "oracle_prefixes": ["c08", "glue"],
